@@ -206,7 +206,7 @@ func c18RunWith(c *core.Ctx, p parser.Parser, in c18Input, policy string, r *ran
 			}
 		}
 	}
-	watchdog := time.After(30 * time.Second)
+	watchdog := time.After(30*time.Second + 8*slowAfter)
 	gotDone := false
 	exitedCh := exited
 loop:
@@ -529,6 +529,16 @@ func runC18(c *core.Ctx) {
 					for _, pause := range []time.Duration{150 * time.Millisecond, 1200 * time.Millisecond, 2500 * time.Millisecond} {
 						slow = append(slow, slowCase{in, policy, pause})
 					}
+				}
+			}
+		}
+		// and consumers that are away for seconds (a stopped terminal, a pager nobody scrolls, a suspended process):
+		// the hand-over waits as long as it takes - one input per class, policy B, 6.5 s (thorough: also 31 s) after each event
+		for _, cl := range sortedKeys(byClass) {
+			if nodes, _, _ := c18Reference(byClass[cl][0]); len(nodes) >= 1 && len(nodes) <= 2 {
+				slow = append(slow, slowCase{byClass[cl][0], "B", 6500 * time.Millisecond})
+				if !c.Quick() {
+					slow = append(slow, slowCase{byClass[cl][0], "A", 31 * time.Second})
 				}
 			}
 		}
